@@ -11,7 +11,7 @@ def pDone : PState → Bool
 def remWrites (s : St) : Nat :=
   (if s.p = .hdr then 1 else 0) +
   (match s.c with | .exited _ => 0 | _ => s.ls.length + 1) +
-  (if s.gzip && !pDone s.p then 1 else 0)
+  (if s.gzip && !s.merr && !pDone s.p then 1 else 0)     -- no gzip close after a marshalling error
 
 structure InvC (W : Nat) (s : St) : Prop where
   count : s.failed = false → s.wcount + remWrites s = W
@@ -20,9 +20,9 @@ structure InvC (W : Nat) (s : St) : Prop where
 /-- writes of the fault-free run: header, one per line, the final (EOF) write, gzip close -/
 def totalWrites (ls : List Nat) (gz : Bool) : Nat := 1 + (ls.length + 1) + (if gz then 1 else 0)
 
-theorem invC_init (cs ls : List Nat) (k : Option Nat) (gz : Bool) :
-    InvC (totalWrites ls gz) (init cs ls k gz) := by
-  constructor <;> simp [init, remWrites, totalWrites, pDone]
+theorem invC_init (cs ls : List Nat) (k : Option Nat) (gz : Bool) (m : Bool := false) :
+    InvC (totalWrites ls (gz && !m)) (init cs ls k gz m) := by
+  constructor <;> cases gz <;> cases m <;> simp [init, remWrites, totalWrites, pDone]
 
 set_option maxHeartbeats 3200000 in
 theorem invC_step (W T : Nat) (s s' : St) (a : Actor) (t : Nat) (ha : InvA s) (hb : InvB T s) (hi : InvC W s)
@@ -31,7 +31,7 @@ theorem invC_step (W T : Nat) (s s' : St) (a : Actor) (t : Nat) (ha : InvA s) (h
   obtain ⟨c1, c2⟩ := hi
   obtain ⟨b1, b2, b3, b4, b5, b6⟩ := hb
   unfold step at h
-  cases a <;> rcases hp : s.p with _ | (_ | _) | _ | _ | _ | _ | (_ | _) <;> rcases hc : s.c with _ | _ | (_ | _) <;>
+  cases a <;> rcases hp : s.p with _ | (_ | _) | _ | _ | _ | _ | (_ | _) | _ <;> rcases hc : s.c with _ | _ | (_ | _) <;>
     simp only [hp, hc] at h <;>
     (repeat' (split at h)) <;>
     first
@@ -39,7 +39,7 @@ theorem invC_step (W T : Nat) (s s' : St) (a : Actor) (t : Nat) (ha : InvA s) (h
     | (injection h with h; subst h
        simp only [hp, hc] at a1 a2 a3 a4 a5 a6 a7 a8 a9 a10 a11 a12 b4 b6
        rcases hf : s.failed with _ | _ <;> simp only [hf] at a4 a6 a7 a9 a10 c1 c2 b6 <;>
-       rcases hg : s.gzip with _ | _ <;>
+       rcases hg : s.gzip with _ | _ <;> rcases hm : s.merr with _ | _ <;>
        constructor <;> simp_all [remWrites, writeFails, pDone] <;>
        (try omega) <;>
        (try (intro j hj; have h1 := c2 j hj
@@ -50,7 +50,8 @@ theorem invC_step (W T : Nat) (s s' : St) (a : Actor) (t : Nat) (ha : InvA s) (h
 /-- a write fails only at the configured index, and that index is one the fault-free run reaches -/
 def InvD (W : Nat) (s : St) : Prop := s.failed = true → ∃ j, s.k = some j ∧ j < W
 
-theorem invD_init (W : Nat) (cs ls : List Nat) (k : Option Nat) (gz : Bool) : InvD W (init cs ls k gz) := by
+theorem invD_init (W : Nat) (cs ls : List Nat) (k : Option Nat) (gz : Bool) (m : Bool := false) :
+    InvD W (init cs ls k gz m) := by
   simp [InvD, init]
 
 set_option maxHeartbeats 1600000 in
@@ -60,7 +61,7 @@ theorem invD_step (W : Nat) (s s' : St) (a : Actor) (t : Nat) (ha : InvA s) (hi 
   have g := ha.gz_state
   unfold InvD at hd ⊢
   unfold step at h
-  cases a <;> rcases hp : s.p with _ | (_ | _) | _ | _ | _ | _ | (_ | _) <;> rcases hc : s.c with _ | _ | (_ | _) <;>
+  cases a <;> rcases hp : s.p with _ | (_ | _) | _ | _ | _ | _ | (_ | _) | _ <;> rcases hc : s.c with _ | _ | (_ | _) <;>
     simp only [hp, hc] at h <;>
     (repeat' (split at h)) <;>
     first
